@@ -81,73 +81,249 @@ def parse_c(t):
 
 
 # ---- inputs -----------------------------------------------------------------------------------
-def rand_inputs(rng, name, nt, zero_rf=False, zero_g=False):
+# The property quantifies over every RF / gradient waveform, every position set and every simulator option; nothing in
+# it restricts the *structure* of a waveform (exactly-zero samples: RF-off / gradient-off dead time, blips, constant
+# gradients), its magnitude (tiny to many turns per sample), the dtype of real-valued data (float / integer arrays hold
+# real waveforms and grid positions exactly), or the memory layout of the ndarray that holds it.  The case dict keeps
+# every array in canonical form (complex128 rf/b1/sens, float64 x/g/fmap, C order); c["how"][arg] says how the array
+# handed to the simulator is materialised from it (`materialise`), so a case replays from its JSON form.
+ARGS = {"abrm": ["rf", "x"], "abrm_nd": ["rf", "x", "g"], "abrm_hp": ["rf", "g", "x"], "blochsim": ["rf", "x", "g"],
+        "abrm_ptx": ["b1", "x", "g", "fmap", "sens"]}
+JUNK = 7.25        # filler of the gaps of a strided buffer: reading a wrong element changes the result visibly
+
+
+def _intvalued(v):
+    return (not np.any(np.imag(v))) and bool(np.all(np.abs(np.real(v)) < 2 ** 31)) and bool(np.all(np.real(v) == np.round(np.real(v))))
+
+
+def materialise(v, how):
+    """the ndarray object handed to the simulator: same VALUES as v (checked), other dtype / strides / flags.
+    A layout that cannot hold v's values (e.g. 'int' after abrm's position rescaling) falls back to a plain copy."""
+    if v is None:
+        return None
+    v = np.asarray(v)
+    out = None
+    if how == "f":
+        out = np.array(v, order="F")
+    elif how == "strided":                     # every other element of a twice larger buffer, along every axis
+        big = np.full(tuple(2 * n for n in v.shape), JUNK, dtype=v.dtype)
+        out = big[tuple(slice(None, None, 2) for _ in v.shape)]
+        out[...] = v
+    elif how == "rev":                         # negative stride along the first axis
+        out = np.array(v[::-1])[::-1]
+    elif how == "ro":                          # read-only buffer (memory map, broadcast result, ...)
+        out = np.array(v)
+        out.setflags(write=False)
+    elif how == "int" and _intvalued(v):
+        out = np.real(v).astype(np.int64)
+    elif how == "real" and not np.any(np.imag(v)):
+        out = np.array(np.real(v), dtype=np.float64)
+    elif how == "bcast" and v.shape[0] >= 1 and bool(np.all(v == v[:1])):   # stride-0 (constant waveform), read-only
+        out = np.broadcast_to(np.array(v[0]), v.shape)
+    if out is None or out.shape != v.shape or not np.array_equal(out, v):
+        out = np.array(v)
+    return out
+
+
+def pick_how(rng, v):
+    if v is None or rng.random() < 0.45:
+        return "c"
+    opts = ["strided", "rev", "ro"]
+    if v.ndim > 1:
+        opts += ["f", "f"]
+    if np.iscomplexobj(v) and not np.any(np.imag(v)):
+        opts += ["real", "real"]
+    if _intvalued(v):
+        opts += ["int", "int", "int"]
+    if v.shape[0] > 1 and bool(np.all(v == v[:1])):
+        opts += ["bcast", "bcast"]
+    return rng.choice(opts)
+
+
+def rand_amp(rng, exact=False):
+    """RF amplitude (radians per sample): small-tip to > pi; sometimes far smaller (down to where |rf|^2 underflows)
+    or many turns per sample.  `exact`: the case goes through the exact rational fold of the model, whose cost grows with
+    the binary exponents (1e-300 is a 1000-bit denominator per atom): the stream stops at 1e-30"""
+    if rng.random() < 0.1:
+        return rng.choice([1e-30, 1e-9, 40.0, 1e3] if exact else [1e-300, 1e-160, 1e-30, 1e-9, 40.0, 1e3])
+    return math.exp(rng.uniform(math.log(1e-3), math.log(8.0)))
+
+
+def shape_rf(rng, r, rf):
+    """structure of an RF waveform (last axis = time): complex / real / integer-valued, RF-off samples"""
+    kind = "complex"
+    u = rng.random()
+    if u < 0.18:
+        rf, kind = rf.real + 0j, "real"
+    elif u < 0.26:
+        rf, kind = r.integers(-3, 4, size=rf.shape).astype(complex), "int"
+    u = rng.random()
+    nt = rf.shape[-1]
+    if u < 0.08:                      # RF switched off for a stretch (zero padding, dead time)
+        i = rng.randrange(nt)
+        rf = rf.copy()
+        rf[..., i:rng.randint(i + 1, nt)] = 0
+        kind += "+off"
+    elif u < 0.14:                    # single RF-off samples
+        rf = rf.copy()
+        rf[..., r.random(nt) < 0.4] = 0
+        kind += "+off"
+    return rf, kind
+
+
+def shape_g(rng, r, g):
+    """structure of a gradient waveform g[t] / g[t, d]: random, blipped (gradient exactly off on every other sample),
+    dead time (exactly off for a stretch), constant (slice select), integer-valued (includes exact zeros), one axis off"""
+    nt = g.shape[0]
+    u = rng.random()
+    kind = "rand"
+    if u < 0.12:
+        g = g.copy()
+        g[rng.randrange(2)::2] = 0
+        kind = "blip"
+    elif u < 0.24:
+        g = g.copy()
+        i = rng.randrange(nt)
+        g[i:rng.randint(i + 1, nt)] = 0
+        kind = "dead"
+    elif u < 0.34:
+        g = np.repeat(g[:1], nt, axis=0)
+        kind = "const"
+    elif u < 0.44:
+        g = r.integers(-2, 3, size=g.shape).astype(float)
+        kind = "int"
+    if g.ndim == 2 and g.shape[1] > 1 and rng.random() < 0.12:
+        g = g.copy()
+        g[:, rng.randrange(g.shape[1])] = 0
+        kind += "+axis-off"
+    return g, kind
+
+
+def bound_phase(x, g, lim=300.0):
+    """halve the positions until the gradient phase accumulated over any prefix / suffix of the waveform stays below `lim`
+    rad at every position: the float rounding of an accumulated phase P (np.sum over <= 256 samples, x * sum) is ~1e-14 x P,
+    which for P >> 300 rad would come within 1e3 of the 1e-9 tolerance.  Powers of two keep zeros and the structure."""
+    G = np.reshape(g, (g.shape[0], -1))
+    pre = np.cumsum(G, axis=0)
+    acc = max(float(np.max(np.linalg.norm(pre, axis=1))), float(np.max(np.linalg.norm(pre[-1] - pre, axis=1))))
+    xm = float(np.max(np.linalg.norm(np.reshape(x, (x.shape[0], -1)), axis=1)))
+    k = 0
+    while xm * acc / 2.0 ** k > lim:
+        k += 1
+    return x / 2.0 ** k, k
+
+
+def shape_x(rng, r, x, scales):
+    """positions: scale from nanometres to far outside the field of view, integer grid, an exactly-zero position"""
+    u = rng.random()
+    if u < 0.12:
+        return r.integers(-4, 5, size=x.shape).astype(float), "int"
+    x = x * rng.choice(scales)
+    if u < 0.27:
+        x = x.copy()
+        x[rng.randrange(x.shape[0])] = 0
+        return x, "has-zero"
+    return x, "rand"
+
+
+XS = [1e-9, 0.1, 0.1, 3.0, 3.0, 30.0, 30.0, 300.0]
+XS_EXACT = [1e-9, 0.1, 0.1, 3.0, 3.0, 30.0]     # exact stream: the 1e-12 comparison with the exact fold cannot absorb the
+LIM_EXACT = 30.0                                # rounding of x @ g (evaluation order of the dot product) at 1000 rad per sample
+
+
+def rand_inputs(rng, name, nt, zero_rf=False, zero_g=False, layouts=True, exact=False):
     """numpy inputs of one simulator call; amplitudes from small-tip to > pi per sample"""
     r = np.random.default_rng(rng.randrange(2 ** 32))
-    amp = math.exp(rng.uniform(math.log(1e-3), math.log(8.0)))
-    rf = (r.normal(size=nt) + 1j * r.normal(size=nt)) * amp
-    if rng.random() < 0.2:
-        rf = rf.real + 0j
+    amp = rand_amp(rng, exact)
+    rf, rfk = shape_rf(rng, r, (r.normal(size=nt) + 1j * r.normal(size=nt)) * amp)
     if zero_rf:
-        rf = np.zeros(nt, dtype=complex)
+        rf, rfk = np.zeros(nt, dtype=complex), "zero"
     c = dict(sim=name, nt=nt)
+    gk = "-"
     if name == "abrm":
         ns = rng.randint(1, 5)
-        c.update(rf=rf, x=r.normal(size=ns) * rng.choice([0.1, 3.0, 30.0]), balanced=rng.random() < 0.3)
+        x, xk = shape_x(rng, r, r.normal(size=ns), XS_EXACT if exact else XS)
+        c.update(rf=rf, x=x, balanced=rng.random() < 0.3)
         if zero_g:
             c["x"] = np.zeros(ns)
     elif name in ("abrm_nd", "blochsim"):
         d = rng.randint(1, 3)
         ns = rng.randint(1, 5)
-        x = r.normal(size=(ns, d)) * rng.choice([0.1, 3.0, 30.0])
-        g = r.normal(size=(nt, d)) * rng.choice([0.01, 1.0])
+        g, gk = shape_g(rng, r, r.normal(size=(nt, d)) * rng.choice([0.01, 1.0]))
         if zero_g:
-            g = np.zeros((nt, d))
+            g, gk = np.zeros((nt, d)), "zero"
+        x, xk = shape_x(rng, r, r.normal(size=(ns, d)), XS_EXACT if exact else XS)
+        x, k = bound_phase(x, g, LIM_EXACT if exact else 300.0)
+        xk += "/2^k" if k else ""
         if name == "blochsim" and d == 1 and rng.random() < 0.5:
             x, g = x[:, 0], g[:, 0]
         c.update(rf=rf, x=x, g=g)
     elif name == "abrm_hp":
         ns = rng.randint(1, 5)
-        g = r.normal(size=nt) * rng.choice([0.01, 1.0])
+        g, gk = shape_g(rng, r, r.normal(size=nt) * rng.choice([0.01, 1.0]))
         if zero_g:
-            g = np.zeros(nt)
-        c.update(rf=rf, g=g, x=r.normal(size=ns) * rng.choice([0.1, 3.0, 30.0]),
-                 dom0dt=0 if (zero_g or rng.random() < 0.5) else float(r.normal() * 0.1))
+            g, gk = np.zeros(nt), "zero"
+        x, xk = shape_x(rng, r, r.normal(size=ns), XS_EXACT if exact else XS)
+        x, k = bound_phase(x, g, LIM_EXACT if exact else 300.0)
+        xk += "/2^k" if k else ""
+        # off-resonance phase per sample: independent of the gradient (pure off-resonance precession with the
+        # gradient off is part of the domain); python float / int / numpy scalar
+        u = rng.random()
+        dom = 0 if u < 0.35 else float(r.normal() * 0.1) if u < 0.7 else rng.choice([1, -2, 2.5, -0.75]) if u < 0.85 \
+            else np.float64(r.normal())
+        c.update(rf=rf, g=g, x=x, dom0dt=dom)
     else:  # abrm_ptx: Ns must be a perfect square
         dim = rng.randint(1, 3)
         d = rng.randint(1, 3)
         nc = rng.randint(1, 3)
-        dt = 4e-6
-        b1 = (r.normal(size=(nc, nt)) + 1j * r.normal(size=(nc, nt))) * amp / (GAM * dt) / nc
+        dt = rng.choice([4e-6, 4e-6, 1e-5, 1e-6])
+        if exact and amp > 100:     # sens @ b1 is a matrix product: its evaluation order moves a 1e3 rad angle by 1e-13
+            amp = 40.0
+        b1, rfk = shape_rf(rng, r, (r.normal(size=(nc, nt)) + 1j * r.normal(size=(nc, nt))) * amp / (GAM * dt) / nc)
         if zero_rf:
-            b1 = np.zeros((nc, nt), dtype=complex)
-        g = r.normal(size=(nt, d)) * rng.choice([0.0, 1.0, 20.0]) / (GAM * dt) * 0.1
+            b1, rfk = np.zeros((nc, nt), dtype=complex), "zero"
+        g, gk = shape_g(rng, r, r.normal(size=(nt, d)))
+        g = g * rng.choice([0.0, 1.0, 20.0]) / (GAM * dt) * 0.1
         if zero_g:
-            g = np.zeros((nt, d))
-        c.update(b1=b1, x=r.normal(size=(dim * dim, d)) * rng.choice([0.1, 3.0]), g=g, dt=dt,
-                 sens=None if rng.random() < 0.5 else (r.normal(size=(nc, dim, dim)) + 1j * r.normal(size=(nc, dim, dim))),
-                 fmap=None if (zero_g or rng.random() < 0.6) else r.normal(size=(dim, dim)) * 50)
+            g, gk = np.zeros((nt, d)), "zero"
+        x, xk = shape_x(rng, r, r.normal(size=(dim * dim, d)), [0.1, 3.0])
+        sens = None if rng.random() < 0.5 else (r.normal(size=(nc, dim, dim)) + 1j * r.normal(size=(nc, dim, dim)))
+        if sens is not None and rng.random() < 0.3:       # real sensitivities / a coil that does not reach a position
+            sens = sens.real + 0j
+            sens[rng.randrange(nc), rng.randrange(dim), rng.randrange(dim)] = 0
+        u = rng.random()
+        fmap = None if u < 0.55 else np.zeros((dim, dim)) if u < 0.62 else r.normal(size=(dim, dim)) * 50
+        if fmap is not None and u >= 0.62 and rng.random() < 0.3:
+            fmap[rng.randrange(dim), rng.randrange(dim)] = 0          # on-resonance voxel in an off-resonance map
+        c.update(b1=b1, x=x, g=g, dt=dt, sens=sens, fmap=fmap)
+    c["cls"] = "rf=%s g=%s x=%s" % (rfk, gk, xk)
+    if layouts:
+        c["how"] = {k: pick_how(rng, c[k]) for k in ARGS[name]}
     return c
 
 
-def run_sim(c):
+def call_sim(c, arrs):
+    """one call of the real simulator on exactly the array objects in `arrs` (no copies)"""
     sim, optcont, _ = mods()
     n = c["sim"]
     with warnings.catch_warnings():
         warnings.simplefilter("ignore")
         if n == "abrm":
-            a, b = sim.abrm(c["rf"].copy(), c["x"].copy(), balanced=bool(c.get("balanced", False)))
+            a, b = sim.abrm(arrs["rf"], arrs["x"], balanced=bool(c.get("balanced", False)))
         elif n == "abrm_nd":
-            a, b = sim.abrm_nd(c["rf"].copy(), c["x"].copy(), c["g"].copy())
+            a, b = sim.abrm_nd(arrs["rf"], arrs["x"], arrs["g"])
         elif n == "abrm_hp":
-            a, b = sim.abrm_hp(c["rf"].copy(), c["g"].copy(), c["x"].copy(), c["dom0dt"])
+            a, b = sim.abrm_hp(arrs["rf"], arrs["g"], arrs["x"], c["dom0dt"])
         elif n == "blochsim":
-            a, b = optcont.blochsim(c["rf"].copy(), c["x"].copy(), c["g"].copy())
+            a, b = optcont.blochsim(arrs["rf"], arrs["x"], arrs["g"])
         else:
-            a, b = sim.abrm_ptx(c["b1"].copy(), c["x"].copy(), c["g"].copy(), c["dt"],
-                                fmap=None if c["fmap"] is None else c["fmap"].copy(),
-                                sens=None if c["sens"] is None else c["sens"].copy())[:2]
-    return np.asarray(a, dtype=complex).ravel(), np.asarray(b, dtype=complex).ravel()
+            a, b = sim.abrm_ptx(arrs["b1"], arrs["x"], arrs["g"], c["dt"], fmap=arrs["fmap"], sens=arrs["sens"])[:2]
+    return np.array(a, dtype=complex).ravel(), np.array(b, dtype=complex).ravel()
+
+
+def run_sim(c):
+    how = c.get("how") or {}
+    return call_sim(c, {k: materialise(c[k], how.get(k, "c")) for k in ARGS[c["sim"]]})
 
 
 def split(c, k):
@@ -180,6 +356,8 @@ def compose(s1, s2, ptx=False):
 # av/bv/S/alpha/beta from them with the formulas the translator extracted from the source and runs the generated
 # state update. -------
 def params(c, j):
+    # |rf| is np.abs (numpy's hypot loop), not the builtin abs(): the two differ in the last bit for a third of all complex
+    # values, and at many turns per sample (|rf|/2 ~ 1e3 rad) one ulp of |rf| moves cos/sin by 1e-13
     n = c["sim"]
     out, zf = [], None
     if n in ("abrm", "abrm_nd"):
@@ -187,11 +365,11 @@ def params(c, j):
         for mm in range(len(rf)):
             if n == "abrm":
                 om = c["x"][j] * (2 * np.pi / len(rf))
-                phi = np.sqrt(abs(rf[mm]) ** 2 + om ** 2) + EPS
+                phi = np.sqrt(np.abs(rf[mm]) ** 2 + om ** 2) + EPS
                 den = phi
             else:
                 om = c["x"][j] @ c["g"][mm, :]
-                phi = np.sqrt(abs(rf[mm]) ** 2 + om ** 2)
+                phi = np.sqrt(np.abs(rf[mm]) ** 2 + om ** 2)
                 den = phi + EPS
             nx, ny, nz = rf[mm].real / den, rf[mm].imag / den, om / den
             out += [np.cos(phi / 2), np.sin(phi / 2), nx, ny, nz]
@@ -210,7 +388,7 @@ def params(c, j):
             else:
                 ph = c["x"][j] @ c["g"][mm, :] if c["g"].ndim > 1 else c["x"][j] * c["g"][mm]
             z = np.exp(-1j * ph)
-            out += [np.cos(abs(rf[mm]) / 2), np.sin(abs(rf[mm]) / 2), np.exp(1j * np.angle(rf[mm])), z]
+            out += [np.cos(np.abs(rf[mm]) / 2), np.sin(np.abs(rf[mm]) / 2), np.exp(1j * np.angle(rf[mm])), z]
         if n == "abrm_hp":
             acc = c["x"][j] * np.sum(c["g"], axis=0) + len(rf) * c["dom0dt"]
         else:
@@ -227,8 +405,10 @@ def params(c, j):
         if c["fmap"] is not None and np.sum(np.abs(c["fmap"])) != 0:
             bz = bz + c["fmap"].flatten()[j] / GAM * 2 * np.pi
         for mm in range(b1.shape[1]):
-            phi = dt * GAM * np.sqrt(abs(bxy[mm]) ** 2 + bz[mm] ** 2)
-            nf = dt * GAM / phi if phi != 0 else 0.0
+            phi = np.float64(dt * GAM * np.sqrt(np.abs(bxy[mm]) ** 2 + bz[mm] ** 2))
+            with np.errstate(all="ignore"):
+                nf = dt * GAM * (phi ** -1)
+            nf = 0.0 if np.isinf(nf) else nf        # no field (or a field below 1/realmax): no rotation axis
             nxy, nz = nf * bxy[mm], nf * bz[mm]
             out += [np.cos(phi / 2), np.sin(phi / 2), nz, nxy]
         kind = n
@@ -297,7 +477,13 @@ def rf_of(c, s):
 
 # ---- correspondence ------------------------------------------------------------------------------
 def correspond(ctx):
-    ctx.rule = ("simulators: random (rf, gradient, positions, options) per simulator, short waveforms (1..14 samples); the "
+    ctx.rule = ("simulators: random (rf, gradient, positions, options) per simulator, short waveforms (1..14 samples), waveform "
+                "classes drawn independently: rf complex / real / integer-valued, with RF-off samples, amplitude 1e-3..8 rad and 10% "
+                "extremes (1e-300..1e3); gradient random / blipped / dead time / constant / integer-valued / one axis off / zero; "
+                "positions scaled 1e-9..300, integer grid, with an exactly-zero position; abrm_hp dom0dt zero / float / int / numpy "
+                "scalar independently of the gradient; abrm_ptx sens None / complex / real with a zero entry, fmap None / all-zero / "
+                "with a zero entry, dt in {1,4,10} us; each array handed to the simulator as C copy, Fortran order, strided view, "
+                "negative-stride view, read-only, stride-0 broadcast, float64 (real rf) or int64 (integer-valued data); the "
                 "per-sample atoms of one position (cos/sin of the half angle, rotation axis, unit phases) are computed in "
                 "float from the documented physics, passed as exact dyadic rationals to the whole-simulation definition "
                 "the translator regenerated from the source (Gen.Sim.<simulator>Sim: parameter formulas, state update in "
@@ -311,11 +497,18 @@ def correspond(ctx):
     rng = ctx.rng
     quick = ctx.tier == "quick"
     for name in SIMS:
-        lines, meta = [], []
+        lines, meta, raised = [], [], set()
         for _ in range(120 if quick else 600):
             nt = rng.randint(1, 14)
-            c = rand_inputs(rng, name, nt, zero_rf=rng.random() < 0.1, zero_g=rng.random() < 0.1)
-            a, b = run_sim(c)
+            c = rand_inputs(rng, name, nt, zero_rf=rng.random() < 0.1, zero_g=rng.random() < 0.1, exact=True)
+            try:
+                a, b = run_sim(c)
+            except Exception as e:   # the real code raises where the model has a value: replayed by the oracle (search)
+                key = raise_key(c, e)
+                ctx.case(("sim-raises", name, json.dumps(_ser(c), sort_keys=True, default=str)[:600]))
+                ctx.disagree("sim-" + name, dict(sim=name, inputs=_ser(c)), repr(e), "(a, b)")
+                raised.add(key)
+                continue
             j = rng.randrange(len(a))
             kind, p, zf = params(c, j)
             lines.append(sim_line(kind, p, zf))
@@ -327,6 +520,13 @@ def correspond(ctx):
             ctx.count("sim:%s:nt=%s" % (name, "1" if c["nt"] == 1 else "2-5" if c["nt"] <= 5 else "6-14"))
             if c.get("balanced"):
                 ctx.count("sim:abrm:balanced")
+            for t in c["cls"].split():
+                ctx.count("sim:%s:%s" % (name, t))
+            for k, h in c["how"].items():
+                if h != "c":
+                    ctx.count("sim:layout:%s=%s" % (k, h))
+            if name == "abrm_hp" and c["dom0dt"] and not np.all(c["g"]):
+                ctx.count("sim:abrm_hp:dom0dt!=0,gradient-off-samples")
             if not rep.startswith("ok "):
                 bad += 1
                 ctx.disagree("sim-" + name, dict(sim=name, line=ln[:300]), (a, b), rep)
@@ -337,7 +537,9 @@ def correspond(ctx):
             if not err <= CTOL:
                 bad += 1
                 ctx.disagree("sim-" + name, dict(sim=name, j=j, inputs=_ser(c)), (complex(a), complex(b)), (ma, mb))
-        ctx.oblige("correspondence:C19.sim-" + name, "correspondence", bad == 0, "%d disagreements" % bad)
+        ctx.oblige("correspondence:C19.sim-" + name, "correspondence", bad == 0 and not raised,
+                   "%d disagreements" % bad + ("".join(" explained-by:" + k for k in sorted(raised)) if bad == 0 else
+                                               "; real code raised: %s" % sorted(raised) if raised else ""))
     # composition written in the model (`compose`) vs numpy
     # ab2rf
     _, _, slr = mods()
@@ -388,7 +590,7 @@ def hp_atoms(rf):
     """per-sample atoms of a hard pulse, from the documented physics (z is a dummy: the polynomial does not read it)"""
     out = []
     for v in rf:
-        out += [np.cos(abs(v) / 2), np.sin(abs(v) / 2), np.exp(1j * np.angle(v)), 1.0]
+        out += [np.cos(np.abs(v) / 2), np.sin(np.abs(v) / 2), np.exp(1j * np.angle(v)), 1.0]
     return out
 
 
@@ -424,8 +626,8 @@ def correspond_poly(ctx):
             rf = mag * np.exp(1j * r.uniform(-np.pi, np.pi, size=n))
             if rng.random() < 0.2:
                 rf = (mag * r.choice([-1.0, 1.0], size=n)).astype(complex)
-            gval = rng.choice([1.0, 1.0, 0.5, 2.0, -1.0])                  # constant gradient, exact in float
-            d = 0.0 if (name == "blochsim" or rng.random() < 0.6) else dyadic(rng, -1, 1)
+            gval = rng.choice([1.0, 1.0, 0.5, 2.0, -1.0, 0.0, 3.0])        # constant gradient (0: gradient off), exact in float
+            d = 0.0 if (name == "blochsim" or rng.random() < (0.2 if gval == 0.0 else 0.5)) else dyadic(rng, -1, 1)
             xs = np.array(sorted({dyadic(rng, -3, 3) for _ in range(rng.randint(1, 5))}))    # dyadic frequencies
             with warnings.catch_warnings():
                 warnings.simplefilter("ignore")
@@ -450,6 +652,8 @@ def correspond_poly(ctx):
         for (rf, gval, d, xs, a, b, small), ln, rep in zip(meta, lines, reps):
             ctx.case(ln, sample=dict(line=ln[:150], reply=rep[:120]) if ctx.evaluations % 23 == 0 else None)
             ctx.count("hppoly:%s:n=%s" % (name, "1" if len(rf) == 1 else "2-5" if len(rf) <= 5 else "6-12"))
+            if gval == 0.0 or d != 0.0:
+                ctx.count("hppoly:%s:%s%s" % (name, "g=0" if gval == 0.0 else "g!=0", ",dom0dt!=0" if d != 0.0 else ""))
             inputs = dict(sim=name, nt=len(rf), rf=rf, g=np.full(len(rf), gval), x=xs, dom0dt=d)
             if not rep.startswith("ok "):
                 bad += 1
@@ -515,16 +719,33 @@ def resp(coef, w):
     return np.exp(-1j * np.outer(w, k)) @ coef
 
 
+def raise_key(c, e):
+    """key of an exception of the real simulator: the exception type plus exactly those non-default array
+    representations (dtype / flags / strides in c["how"]) without which the same call does not raise"""
+    need = []
+    how = c.get("how") or {}
+    for k in sorted(how):
+        if how[k] != "c":
+            c2 = dict(c, how=dict(how, **{k: "c"}))
+            try:
+                run_sim(c2)
+                need.append("%s=%s" % (k, how[k]))
+            except Exception:  # noqa
+                pass
+    return "C19:%s:raises:%s%s" % (c["sim"], type(e).__name__, (":" + ",".join(need)) if need else "")
+
+
 def oracle_sim(ctx, c, origin):
     name = c["sim"]
     case = dict(kind="sim", inputs=_ser(c))
     try:
         a, b = run_sim(c)
     except Exception as e:
-        ctx.fail("C19:%s:raises" % name, "%s raised %s" % (name, type(e).__name__), case, observed=repr(e), expected="(a, b)", origin=origin)
+        ctx.fail(raise_key(c, e), "%s raised %s" % (name, type(e).__name__), case, observed=repr(e), expected="(a, b)", origin=origin)
         return False
     ok = True
     dev = float(np.max(np.abs(np.abs(a) ** 2 + np.abs(b) ** 2 - 1))) if len(a) else 0.0
+    ctx.unimax = max(getattr(ctx, "unimax", 0.0), dev)
     if not dev <= UTOL:
         ok = False
         ctx.fail("C19:%s:unitarity" % name, "|alpha|^2+|beta|^2 != 1", case, observed=dev, expected="<= 1e-9", origin=origin)
@@ -535,7 +756,8 @@ def oracle_sim(ctx, c, origin):
         if not (zb <= 1e-12 and za <= UTOL):
             ok = False
             ctx.fail("C19:%s:zero-pulse" % name, "zero RF must give beta = 0, |alpha| = 1", case, observed=(zb, za), expected=0, origin=origin)
-        zero_g = (not np.any(c["x"])) if name == "abrm" else (not np.any(c["g"]) and not c.get("dom0dt") and c.get("fmap") is None)
+        zero_g = (not np.any(c["x"])) if name == "abrm" else (not np.any(c["g"]) and not c.get("dom0dt")
+                                                                   and (c.get("fmap") is None or not np.any(c["fmap"])))
         if zero_g and not float(np.max(np.abs(a - 1))) <= UTOL:
             ok = False
             ctx.fail("C19:%s:zero-pulse" % name, "zero RF and zero gradient must give the identity", case,
@@ -548,10 +770,116 @@ def oracle_sim(ctx, c, origin):
             dev = float(max(np.max(np.abs(want[0] - a)), np.max(np.abs(want[1] - b))))
         except Exception as e:  # noqa
             dev = float("inf")
+        ctx.compmax = max(getattr(ctx, "compmax", 0.0), dev)
         if not dev <= UTOL:
             ok = False
             ctx.fail("C19:%s:composition" % name, "simulating w1++w2 differs from the product of the two rotations", case,
                      observed=dev, expected="<= 1e-9", origin=origin)
+    return ok
+
+
+# ---- composition inside a call history ---------------------------------------------------------------
+# "Simulating two waveforms back to back equals composing their rotations" is a statement about two simulator CALLS made
+# one after the other.  How the caller holds the waveforms is not restricted: a pulse-design loop keeps one rf / gradient /
+# position work buffer and refills it per segment (the same ndarray objects, or fresh views of the same memory, with other
+# contents), scales a gradient in place, re-simulates with only the RF changed, or keeps two trajectories alive and
+# alternates between them.  A history case is a list of rounds (full waveforms, same simulator and shapes); every round is
+# cut into m equal segments which are simulated call after call through the buffer discipline in `policy`/`view`/`order`;
+# the composition of a round's segment rotations must equal the simulation of the round's whole waveform (computed before
+# the history starts, from fresh arrays), and every call must return a unitary pair.
+def split_m(c, m):
+    out, rest = [], c
+    L = c["nt"] // m
+    for _ in range(m - 1):
+        c1, rest = split(rest, L)
+        out.append(c1)
+    return out + [rest]
+
+
+def hist_case(rng, name):
+    m = rng.choice([2, 2, 3])
+    L = rng.randint(1, 6)
+    base = rand_inputs(rng, name, m * L, zero_rf=rng.random() < 0.05, zero_g=rng.random() < 0.05, layouts=False)
+    base["balanced"] = False
+    del base["cls"]
+    r = np.random.default_rng(rng.randrange(2 ** 32))
+    rfk = "b1" if name == "abrm_ptx" else "rf"
+    rounds = [base]
+    for _ in range(rng.randint(0, 2)):
+        c = dict(rounds[-1])
+        for what in rng.sample(["rf", "g", "x", "gscale", "xscale"], rng.randint(1, 2)):
+            if what == "rf":         # next design iterate: new RF on the same trajectory
+                c[rfk] = (r.normal(size=c[rfk].shape) + 1j * r.normal(size=c[rfk].shape)) * (np.max(np.abs(c[rfk])) or 1.0)
+            elif what in ("g", "gscale") and name != "abrm":
+                c["g"] = c["g"] * rng.choice([-1.0, 0.5, 2.0]) if what == "gscale" else np.array(r.permutation(c["g"]))
+            elif what == "x":
+                c["x"] = np.array(r.permutation(c["x"].ravel()).reshape(c["x"].shape)) + (r.normal() if rng.random() < 0.5 else 0.0)
+            elif what == "xscale":
+                c["x"] = c["x"] * rng.choice([-1.0, 0.5, 3.0])
+        rounds.append(c)
+    return dict(kind="hist", sim=name, m=m, rounds=[_ser(c) for c in rounds],
+                policy={k: ("buffer" if rng.random() < 0.75 else "fresh") for k in ARGS[name]},
+                view=rng.choice(["object", "object", "view"]),
+                order=rng.choice(["sequential", "sequential", "interleaved"]) if len(rounds) > 1 else "sequential")
+
+
+def run_history(c):
+    """-> per round: (reference (a, b) of the whole waveform, [segment results in call order])"""
+    rounds = [_deser(x) for x in c["rounds"]]
+    name, m = c["sim"], c["m"]
+    refs = [run_sim(x) for x in rounds]                       # before the history, from fresh arrays
+    segs = [split_m(x, m) for x in rounds]
+    if c["order"] == "interleaved":                           # two (or three) live trajectories, each with its own buffers
+        calls = [(ri, si) for si in range(m) for ri in range(len(rounds))]
+    else:
+        calls = [(ri, si) for ri in range(len(rounds)) for si in range(m)]
+    bufs, wrote, res = {}, {}, {}
+    for ri, si in calls:
+        sc = segs[ri][si]
+        arrs = {}
+        for k in ARGS[name]:
+            v = sc[k]
+            if v is None:
+                arrs[k] = None
+            elif c["policy"].get(k) == "buffer":
+                bk = (ri if c["order"] == "interleaved" else 0, k)
+                if bk not in bufs:
+                    bufs[bk] = np.array(v)
+                elif not np.array_equal(wrote[bk], v):         # the caller only rewrites a buffer whose waveform changes
+                    bufs[bk][...] = v                          # refilled in place: same object, same memory
+                wrote[bk] = v
+                arrs[k] = bufs[bk] if c["view"] == "object" else bufs[bk][...]
+            else:
+                arrs[k] = np.array(v)
+        res[(ri, si)] = call_sim(sc, arrs)
+    return [(refs[ri], [res[(ri, si)] for si in range(m)]) for ri in range(len(rounds))]
+
+
+def oracle_hist(ctx, c, origin):
+    name = c["sim"]
+    try:
+        out = run_history(c)
+    except Exception as e:
+        ctx.fail("C19:%s:history:raises" % name, "%s raised %s inside a call history" % (name, type(e).__name__), c,
+                 observed=repr(e), expected="(a, b)", origin=origin)
+        return False
+    ok = True
+    for ri, (ref, parts) in enumerate(out):
+        dev = max(float(np.max(np.abs(np.abs(a) ** 2 + np.abs(b) ** 2 - 1))) for a, b in parts)
+        if not dev <= UTOL:
+            ok = False
+            ctx.fail("C19:%s:history:unitarity" % name, "|alpha|^2+|beta|^2 != 1 for a call inside a history (round %d)" % ri, c,
+                     observed=dev, expected="<= 1e-9", origin=origin)
+        acc = parts[0]
+        for nxt in parts[1:]:
+            acc = compose(acc, nxt, ptx=name == "abrm_ptx")
+        dev = float(max(np.max(np.abs(acc[0] - ref[0])), np.max(np.abs(acc[1] - ref[1]))))
+        ctx.histmax = max(getattr(ctx, "histmax", 0.0), dev)
+        if not dev <= UTOL:
+            ok = False
+            ctx.fail("C19:%s:history:composition" % name,
+                     "segments simulated call after call through reused work buffers (round %d) do not compose to the "
+                     "simulation of the whole waveform" % ri, c, observed=dev, expected="<= 1e-9", origin=origin)
     return ok
 
 
@@ -739,6 +1067,17 @@ def search(ctx, budget):
             ctx.case(("oracle", name, i, nt))
             ctx.count("oracle:%s" % name)
             oracle_sim(ctx, c, "search")
+    for name in SIMS:
+        for i in range(int(40 * budget)):
+            c = hist_case(rng, name)
+            ctx.case(("oracle-hist", name, json.dumps(c, sort_keys=True, default=str)[:600]))
+            ctx.count("oracle:hist:%s" % name)
+            ctx.count("oracle:hist:order=%s,view=%s,rounds=%d" % (c["order"], c["view"], len(c["rounds"])))
+            oracle_hist(ctx, c, "search")
+    ctx.notes.append("call histories: max |composition of the segment calls - whole-waveform simulation| = %.3g (tolerance %g)"
+                     % (getattr(ctx, "histmax", 0.0), UTOL))
+    ctx.notes.append("single calls over all waveform classes / layouts: max ||alpha|^2+|beta|^2 - 1| = %.3g, max composition "
+                     "deviation = %.3g (tolerance %g)" % (getattr(ctx, "unimax", 0.0), getattr(ctx, "compmax", 0.0), UTOL))
     for c in rt_cases(rng, int(60 * budget)) + dzrf_cases(rng, 1 if budget <= 1 else 3):
         ctx.case(("oracle-rt", json.dumps(c, sort_keys=True)[:400]))
         ctx.count("oracle:rt:%s" % c["mode"])
@@ -758,6 +1097,8 @@ def replay(path):
         ok = oracle_sim(ctx, _deser(cc["inputs"]), "replay")
     elif cc.get("kind") == "fwdinv":
         ok = oracle_fwdinv(ctx, cc, "replay")
+    elif cc.get("kind") == "hist":
+        ok = oracle_hist(ctx, cc, "replay")
     else:
         ok = oracle_roundtrip(ctx, cc, "replay")
     for f in ctx.failures:
